@@ -44,7 +44,7 @@ pub fn plan(id: &str, tier: &str) -> Option<Plan> {
     let _t = tier == "thorough";
     match id {
         "C01" => Some(Plan::new(if _t { 96 } else { 12 }, 1200)),
-        "C02" => Some(Plan::new(if _t { 160 } else { 12 }, 1200)),
+        "C02" => Some(Plan::new(if _t { 160 } else { 14 }, 1200)),
         "C03" => Some(Plan::new(if _t { 64 } else { 12 }, 900)),
         "C14" => Some(Plan::new(if _t { 64 } else { 6 }, 900)),
         "C13" => Some(Plan::new(if _t { 48 } else { 12 }, 1500)),
